@@ -393,11 +393,22 @@ def _system_case(case: dict, ctx: dict, bump: typing.Callable) -> typing.Tuple[l
                 opts["pp_trim"] = True
             if r.chance(1, 2):
                 opts["pp_max_empty"] = r.choice([0, 1, 2])
+            if r.chance(1, 3):
+                # the language's own line-processor configuration, overridden through a --configuration file
+                opts["lang_cfg"] = {"limit": r.choice([0, 1, 2, 3, "2", "0"]), "trim": r.choice([True, False, "false", "0", "true", "yes"])}
         seeds = [r.below(1 << 30) for _ in range(4)]
     if opts.get("templates"):
         usertpl.plant(world.tpl_dir, opts["templates"], usertpl.SETS[opts["templates"]])
     executed = {"label": case.get("label"), "hash_seed": case.get("hash_seed", 0), "mode": "system", "dsdl": {"roots": list(roots), "files": dict(files)}, "opts": opts, "chunk_seeds": seeds}
-    base = proc.run_invocation(world.invocation(opts))
+    run_opts = {k: val for k, val in opts.items() if k != "lang_cfg"}
+    if opts.get("lang_cfg"):
+        lcfg = os.path.join(sandbox, "lang_cfg.yaml")
+        with open(lcfg, "w", encoding="utf-8") as f:
+            import json as _json
+
+            f.write("nunavut.lang.%s:\n  limit_empty_lines: %s\n  trim_trailing_whitespace: %s\n" % (opts["lang"], _json.dumps(opts["lang_cfg"]["limit"]), _json.dumps(opts["lang_cfg"]["trim"])))
+        run_opts["extra_argv"] = ["--configuration", lcfg, "--verbose"]
+    base = proc.run_invocation(world.invocation(run_opts))
     if not nnvg.succeeded(base):
         bump("ops", "system-skipped-baseline-fails")
         return [], 1, set(), {"opts": opts, "executed": executed}
@@ -409,6 +420,10 @@ def _system_case(case: dict, ctx: dict, bump: typing.Callable) -> typing.Tuple[l
     # configuration file gives the raw text of every file; the real run must equal the whole-text reference applied to it
     # (this also sees state that a processor carries from one file of a run into the next)
     lang_limit, lang_trim = (1, True) if opts["lang"] in ("c", "py") else (None, False)
+    if opts.get("lang_cfg"):
+        lang_limit = int(opts["lang_cfg"]["limit"])
+        tv = opts["lang_cfg"]["trim"]
+        lang_trim = bool(tv) if isinstance(tv, bool) else (str(tv).lower() not in ("false", "0", ""))
     procs = []  # type: typing.List[list]
     if opts.get("pp_trim"):
         procs.append(["trim"])
@@ -421,7 +436,7 @@ def _system_case(case: dict, ctx: dict, bump: typing.Callable) -> typing.Tuple[l
     cfg = os.path.join(sandbox, "raw.yaml")
     with open(cfg, "w", encoding="utf-8") as f:
         f.write("nunavut.lang.%s:\n  limit_empty_lines: 1000000\n  trim_trailing_whitespace: false\n" % opts["lang"])
-    raw_opts = {k: val for k, val in opts.items() if k not in ("pp_trim", "pp_max_empty")}
+    raw_opts = {k: val for k, val in opts.items() if k not in ("pp_trim", "pp_max_empty", "lang_cfg")}
     raw_opts["extra_argv"] = ["--configuration", cfg, "--verbose"]
     nnvg._force_rmtree(world.out_dir)  # pylint: disable=protected-access
     raw = proc.run_invocation(world.invocation(raw_opts))
@@ -452,7 +467,7 @@ def _system_case(case: dict, ctx: dict, bump: typing.Callable) -> typing.Tuple[l
         bump("ops", "system-raw-run-fails")
     for cs in seeds:
         nnvg._force_rmtree(world.out_dir)  # pylint: disable=protected-access
-        res = proc.run_invocation(world.invocation(opts, chunk_seed=cs))
+        res = proc.run_invocation(world.invocation(run_opts, chunk_seed=cs))
         ev += 1
         for k, n in res.get("probes", {}).items():
             bump("probes", "system:" + k, n)
